@@ -540,3 +540,242 @@ Proof.
   - congruence.
   - congruence.
 Qed.
+
+(* ------------------------------------------------------------------ all bracketings *)
+Definition wf_heap (h : heap) : Prop := forall pid, dict_ok (h_vars h pid).
+Definition valid (h : heap) (p : ppl) : Prop := p_id p < h_next h.
+Definition frame (h h' : heap) : Prop :=
+  h_next h <= h_next h' /\ (forall pid, pid < h_next h -> h_vars h' pid = h_vars h pid) /\
+  (wf_heap h -> wf_heap h').
+
+Lemma frame_refl h : frame h h.
+Proof. unfold frame. split; [lia|]. split; auto. Qed.
+Lemma frame_trans h1 h2 h3 : frame h1 h2 -> frame h2 h3 -> frame h1 h3.
+Proof.
+  intros (A1 & B1 & C1) (A2 & B2 & C2). split; [lia|]. split; [|auto].
+  intros pid Hp. rewrite B2 by lia. apply B1. exact Hp.
+Qed.
+Lemma add_frame h p q h' r : add h p q = (h', r) -> frame h h'.
+Proof.
+  unfold add, mk. intros H. inversion H; subst; clear H. unfold frame, wf_heap. cbn [h_next h_vars fst snd].
+  split; [lia|]. split.
+  - intros pid Hp. unfold upd. destruct (N.eqb pid (h_next h)) eqn:E; [apply N.eqb_eq in E; lia | reflexivity].
+  - intros W pid. unfold upd. destruct (N.eqb pid (h_next h)); [apply dict_ok_dmerge; apply W | apply W].
+Qed.
+Lemma eval_frame e : forall h h' r, eval h e = (h', r) -> frame h h'.
+Proof.
+  induction e as [p|a IHa b IHb]; intros h h' r H; cbn in H.
+  - inversion H. apply frame_refl.
+  - unfold hbind in H. destruct (eval h a) as [h1 ra] eqn:Ea. cbn in H. specialize (IHa _ _ _ Ea).
+    destruct ra as [pa|t|t]; try (inversion H; subst; exact IHa).
+    destruct (eval h1 b) as [h2 rb] eqn:Eb. cbn in H. specialize (IHb _ _ _ Eb).
+    destruct rb as [pb|t|t]; try (inversion H; subst; eapply frame_trans; eassumption).
+    apply add_frame in H. eapply frame_trans; [eassumption|]. eapply frame_trans; eassumption.
+Qed.
+
+Lemma vars_lookup_app k l1 l2 :
+  vars_lookup k (l1 ++ l2) = match vars_lookup k l2 with Some v => Some v | None => vars_lookup k l1 end.
+Proof.
+  induction l1 as [|d l1 IH]; simpl.
+  - destruct (vars_lookup k l2); reflexivity.
+  - rewrite IH. destruct (vars_lookup k l2); reflexivity.
+Qed.
+
+(* every bracketing of + over the same sequence of pipelines is the flat concatenation *)
+Lemma eval_flat e : forall h h' s, wf_heap h -> (forall p, In p (leaves e) -> valid h p) ->
+  eval h e = (h', Ok s) ->
+  p_items s = flat_map p_items (leaves e) /\ p_post s = flat_map p_post (leaves e) /\
+  p_fin s = flat_map p_fin (leaves e) /\
+  (forall k, lookup k (h_vars h' (p_id s)) = vars_lookup k (map (fun p => h_vars h (p_id p)) (leaves e))) /\
+  valid h' s /\ match e with Leaf _ => True | Plus _ _ => owned h' s end.
+Proof.
+  induction e as [p|a IHa b IHb]; intros h h' s W V H; cbn in H.
+  - inversion H; subst. cbn. rewrite !app_nil_r. repeat split; try reflexivity.
+    apply V. left. reflexivity.
+  - unfold hbind in H. destruct (eval h a) as [h1 ra] eqn:Ea. cbn in H.
+    destruct ra as [pa|t|t]; try discriminate.
+    destruct (eval h1 b) as [h2 rb] eqn:Eb. cbn in H.
+    destruct rb as [pb|t|t]; try discriminate.
+    pose proof (eval_frame _ _ _ _ Ea) as (N1 & F1 & W1).
+    pose proof (eval_frame _ _ _ _ Eb) as (N2 & F2 & W2).
+    destruct (IHa h h1 pa W) as (Ia & Qa & Fa & La & Va & _).
+    { intros p Hp. apply V. cbn. apply in_app_iff. left. exact Hp. } { exact Ea. }
+    destruct (IHb h1 h2 pb (W1 W)) as (Ib & Qb & Fb & Lb & Vb & _).
+    { intros p Hp. unfold valid. assert (valid h p) by (apply V; cbn; apply in_app_iff; right; exact Hp).
+      unfold valid in *. lia. } { exact Eb. }
+    apply add_ok in H. destruct H as (Ho & Hs & Hv & _ & Hn).
+    subst s. cbn [p_items p_post p_fin p_id leaves]. rewrite !flat_map_app.
+    split; [rewrite Ia, Ib; reflexivity|]. split; [rewrite Qa, Qb; reflexivity|].
+    split; [rewrite Fa, Fb; reflexivity|]. split; [|split].
+    + intros k. rewrite Hv. unfold upd. rewrite N.eqb_refl.
+      rewrite lookup_dmerge by (apply W2, W1, W).
+      rewrite map_app, vars_lookup_app, Lb.
+      rewrite (F2 (p_id pa)) by exact Va. rewrite La.
+      assert (Em : map (fun p => h_vars h1 (p_id p)) (leaves b) = map (fun p => h_vars h (p_id p)) (leaves b)).
+      { apply map_ext_in. intros p Hp. apply F1. apply V. cbn. apply in_app_iff. right. exact Hp. }
+      rewrite Em. reflexivity.
+    + unfold valid. cbn. lia.
+    + exact Ho.
+Qed.
+
+(* sum() of a list is the left-nested bracketing *)
+Definition ltree (p : ppl) (l : list ppl) : tree := fold_left (fun t q => Plus t (Leaf q)) l (Leaf p).
+Lemma leaves_ltree l : forall t, leaves (fold_left (fun t q => Plus t (Leaf q)) l t) = leaves t ++ l.
+Proof.
+  induction l as [|q l IH]; intros t; cbn; [rewrite app_nil_r; reflexivity|].
+  rewrite IH. cbn. rewrite <- app_assoc. reflexivity.
+Qed.
+Lemma psum_eval_gen h l : forall t,
+  fold_left (fun acc q => hbind acc (fun h' s => add h' s q)) l (eval h t) =
+  eval h (fold_left (fun t q => Plus t (Leaf q)) l t).
+Proof.
+  induction l as [|q l IH]; intros t; [reflexivity|]. cbn [fold_left]. rewrite <- IH. reflexivity.
+Qed.
+Lemma psum_eval h p l : psum h (p :: l) = eval h (ltree p l).
+Proof. unfold psum, ltree. rewrite <- psum_eval_gen. reflexivity. Qed.
+
+(* the resolver's result is the concatenation of the named pipelines in (priority, name) order *)
+Lemma resolve_flat h reg specs l h' s : wf_heap h -> (forall p, In p reg -> valid h p) ->
+  resolve_order p_name p_prio reg specs = Some l -> l <> [] ->
+  resolve h reg specs = (h', Ok s) ->
+  p_items s = flat_map p_items l /\ p_post s = flat_map p_post l /\ p_fin s = flat_map p_fin l /\
+  (forall k, lookup k (h_vars h' (p_id s)) = vars_lookup k (map (fun p => h_vars h (p_id p)) l)).
+Proof.
+  intros W V E Hne H. unfold resolve in H. rewrite E in H. destruct l as [|p l]; [contradiction|].
+  rewrite psum_eval in H.
+  assert (Hl : leaves (ltree p l) = p :: l) by (unfold ltree; rewrite leaves_ltree; reflexivity).
+  destruct (eval_flat (ltree p l) h h' s W) as (A & B & C & D & _); [|exact H|].
+  - rewrite Hl. intros q Hq. apply V.
+    unfold resolve_order in E. destruct (resolve_all p_name reg specs) as [l0|] eqn:E0; [|discriminate].
+    inversion E as [E1]. assert (Hin : In q (map fst (isort (info_leb p_prio) l0))) by (rewrite E1; exact Hq).
+    apply in_map_iff in Hin. destruct Hin as (x & Hx & Hin). subst q.
+    apply (Permutation_in _ (isort_perm _ l0)) in Hin.
+    pose proof (resolve_all_lookup p_name reg specs l0 E0 x Hin) as Hlk.
+    clear - Hlk. induction reg as [|r reg IH]; cbn in Hlk; [discriminate|].
+    destruct (reg_lookup p_name reg (snd x)) eqn:Er.
+    + right. apply IH. congruence.
+    + destruct (oname_eqb (p_name r) (snd x)); [left; congruence | discriminate].
+  - rewrite Hl in *. repeat split; assumption.
+Qed.
+
+(* ------------------------------------------------------------------ identity *)
+Lemma add_empty_r h p e h' s : p_items e = [] -> p_post e = [] -> p_fin e = [] -> h_vars h (p_id e) = [] ->
+  add h p e = (h', Ok s) -> abs h' s = abs h p.
+Proof.
+  intros A B C D H. apply add_refines in H. destruct H as [H _]. rewrite H.
+  unfold aplus, abs. cbn. rewrite A, B, C, D, !app_nil_r. reflexivity.
+Qed.
+Lemma add_empty_l h p e h' s : p_items e = [] -> p_post e = [] -> p_fin e = [] -> h_vars h (p_id e) = [] ->
+  dict_ok (h_vars h (p_id p)) ->
+  add h e p = (h', Ok s) -> aeq (abs h' s) (abs h p).
+Proof.
+  intros A B C D W H. apply add_refines in H. destruct H as [H _]. rewrite H.
+  unfold aeq, aplus, abs. cbn. rewrite A, B, C, D. repeat split; try reflexivity.
+  intros k. apply lookup_dmerge_nil_l. exact W.
+Qed.
+
+(* ------------------------------------------------------------------ backend assembly and stage order *)
+Lemma abs_frame h h' p : (forall pid, pid < h_next h -> h_vars h' pid = h_vars h pid) -> valid h p -> abs h' p = abs h p.
+Proof. intros F V. unfold abs. rewrite F by exact V. reflexivity. Qed.
+
+Lemma init_refines h f bk user outf h' s : valid h outf ->
+  init h f bk user outf = (h', Ok s) ->
+  owned h' s /\
+  abs h' s = with_backend_vars f (aplus (match user with Some u => aplus (abs h bk) (abs h u) | None => abs h bk end)
+                                        (abs h outf)).
+Proof.
+  intros V H. unfold init, hbind in H.
+  destruct (add_opt h bk user) as [h1 r1] eqn:E1. cbn [fst snd] in H. destruct r1 as [s1|t|t]; try discriminate.
+  destruct (add h1 s1 outf) as [h2 r2] eqn:E2. cbn [fst snd] in H. destruct r2 as [s2|t|t]; try discriminate.
+  inversion H; subst; clear H.
+  pose proof (add_refines _ _ _ _ _ E2) as [A2 O2].
+  split; [exact O2|].
+  assert (E : abs h1 s1 = match user with Some u => aplus (abs h bk) (abs h u) | None => abs h bk end /\
+              abs h1 outf = abs h outf).
+  { destruct user as [u|]; cbn in E1.
+    - pose proof (add_frame _ _ _ _ _ E1) as (_ & F & _). apply add_refines in E1. destruct E1 as [A1 _].
+      split; [exact A1 | apply abs_frame; assumption].
+    - inversion E1; subst. split; reflexivity. }
+  destruct E as [Ea Eb]. rewrite Ea, Eb in A2.
+  unfold abs in A2 |- *. unfold with_backend_vars. cbn. unfold upd. rewrite N.eqb_refl.
+  inversion A2 as [[I Q F Vv]]. cbn. rewrite I, Q, F. rewrite Vv. reflexivity.
+Qed.
+
+Lemma stage_order h f bk user outf h' s rules : valid h outf ->
+  init h f bk user outf = (h', Ok s) ->
+  snd (m_run h' f s rules) =
+  abs_run f (with_backend_vars f (aplus (match user with Some u => aplus (abs h bk) (abs h u) | None => abs h bk end)
+                                        (abs h outf))) rules.
+Proof.
+  intros V H. destruct (init_refines _ _ _ _ _ _ _ V H) as [O A]. rewrite <- A. apply behaviour. exact O.
+Qed.
+
+(* ------------------------------------------------------------------ the history clause is false (D18) *)
+Definition w_item : pitem := {| i_uid := 1; i_id := [105]; i_kind := KSetState s_index [119;105;110]; i_cond := None |}.
+Definition w_h0 : heap := fst (mk_defs h_empty [ {| d_items := [w_item]; d_post := []; d_fin := []; d_vars := []; d_prio := 0%Z; d_name := None |};
+                                                 {| d_items := []; d_post := []; d_fin := []; d_vars := []; d_prio := 0%Z; d_name := None |};
+                                                 {| d_items := []; d_post := []; d_fin := []; d_vars := []; d_prio := 0%Z; d_name := None |} ]).
+Definition w_p : ppl := {| p_id := 0; p_items := [w_item]; p_post := []; p_fin := []; p_prio := 0%Z; p_name := None |}.
+Definition w_q : ppl := {| p_id := 1; p_items := []; p_post := []; p_fin := []; p_prio := 0%Z; p_name := None |}.
+Definition w_r : ppl := {| p_id := 2; p_items := []; p_post := []; p_fin := []; p_prio := 0%Z; p_name := None |}.
+Definition w_s : ppl := {| p_id := 3; p_items := [w_item]; p_post := []; p_fin := []; p_prio := 0%Z; p_name := None |}.
+Definition w_rules : list rule := [ {| r_field := [102]; r_value := [118]; r_two := false |} ].
+
+Lemma reuse_refuted :
+  exists h p q r s t rules,
+    owned h p /\ owned h q /\ owned h r /\
+    snd (add h p q) = Ok s /\ snd (add (fst (add h p q)) p r) = Ok t /\
+    (* right after the addition the sum behaves like the concatenation ... *)
+    snd (m_run (fst (add h p q)) FState s rules) = abs_run FState (abs (fst (add h p q)) s) rules /\
+    (* ... but no longer once an operand took part in another addition *)
+    snd (m_run (fst (add (fst (add h p q)) p r)) FState s rules)
+      <> abs_run FState (abs (fst (add (fst (add h p q)) p r)) s) rules.
+Proof.
+  exists w_h0, w_p, w_q, w_r, w_s,
+         {| p_id := 4; p_items := [w_item]; p_post := []; p_fin := []; p_prio := 0%Z; p_name := None |}, w_rules.
+  repeat split.
+  - intros u Hu. cbn in Hu. destruct Hu as [<-|[]]. reflexivity.
+  - intros u [].
+  - intros u [].
+  - vm_compute. discriminate.
+Qed.
+
+(* ------------------------------------------------------------------ corollaries restated in Props *)
+Lemma assoc3 h p q r h1 s1 h2 s2 : wf_heap h -> valid h p -> valid h q -> valid h r ->
+  eval h (Plus (Plus (Leaf p) (Leaf q)) (Leaf r)) = (h1, Ok s1) ->
+  eval h (Plus (Leaf p) (Plus (Leaf q) (Leaf r))) = (h2, Ok s2) ->
+  aeq (abs h1 s1) (abs h2 s2).
+Proof.
+  intros W Vp Vq Vr E1 E2.
+  assert (V : forall x, In x [p; q; r] -> valid h x) by (intros x [<-|[<-|[<-|[]]]]; assumption).
+  destruct (eval_flat (Plus (Plus (Leaf p) (Leaf q)) (Leaf r)) _ _ _ W V E1) as (A1 & B1 & C1 & D1 & _).
+  destruct (eval_flat (Plus (Leaf p) (Plus (Leaf q) (Leaf r))) _ _ _ W V E2) as (A2 & B2 & C2 & D2 & _).
+  cbn [leaves app] in A1, B1, C1, D1, A2, B2, C2, D2.
+  unfold aeq, abs. cbn [a_items a_post a_fin a_vars].
+  split; [congruence|]. split; [congruence|]. split; [congruence|].
+  intros k. rewrite D1, D2. reflexivity.
+Qed.
+
+Lemma identity_all h p e h' s :
+  p_items e = [] -> p_post e = [] -> p_fin e = [] -> h_vars h (p_id e) = [] -> dict_ok (h_vars h (p_id p)) ->
+  (add h p e = (h', Ok s) -> abs h' s = abs h p) /\
+  (add h e p = (h', Ok s) -> aeq (abs h' s) (abs h p)) /\
+  add_opt h p None = (h, Ok p) /\ psum h [p] = (h, Ok p).
+Proof.
+  intros A B C D W. split; [apply add_empty_r; assumption|].
+  split; [apply add_empty_l; assumption|]. split; reflexivity.
+Qed.
+
+Lemma premises_inhabited :
+  wf_heap w_h0 /\ valid w_h0 w_p /\ valid w_h0 w_q /\ owned w_h0 w_p /\
+  snd (add w_h0 w_p w_q) = Ok w_s /\ owned (fst (add w_h0 w_p w_q)) w_s.
+Proof.
+  split.
+  { intros pid. unfold dict_ok.
+    assert (E : h_vars w_h0 pid = []).
+    { vm_compute. repeat (match goal with |- context [match ?x with _ => _ end] => destruct x end); reflexivity. }
+    rewrite E. constructor. }
+  split; [reflexivity|]. split; [reflexivity|].
+  split; [intros u Hu; cbn in Hu; destruct Hu as [<-|[]]; reflexivity|]. split; [reflexivity|].
+  intros u Hu. cbn in Hu. destruct Hu as [<-|[]]. reflexivity.
+Qed.
